@@ -6,6 +6,7 @@ import (
 	"errors"
 	"fmt"
 	"math"
+	"strconv"
 	"strings"
 	"sync"
 	"sync/atomic"
@@ -258,4 +259,53 @@ func HarnessSelfTestFormat(a []int) {
 	_ = fmt.Sprint(selfErr(3))
 	verifAssert("self.format.string_verbs_call", selfErrCalls == 3)
 	verifCover("self.format.end")
+}
+
+func init() {
+	verifHarnesses["HarnessSelfTestParse"] = HarnessSelfTestParse
+}
+
+// HarnessSelfTestParse: a = {length, signed}: the summary of strconv.ParseInt/ParseUint (base 10,
+// symbolic characters) against an independent definition; every byte string of the given length.
+func HarnessSelfTestParse(a []int) {
+	n, signed := a[0], a[1] == 1
+	bs := nondetBytes(n)
+	s := string(bs)
+	// reference: optional sign, then digits only; value by Horner; range of 16 bits
+	i, neg := 0, false
+	if signed && n > 0 && (bs[0] == '+' || bs[0] == '-') {
+		neg = bs[0] == '-'
+		i = 1
+	}
+	valid := i < n
+	ref := int64(0)
+	for ; i < n; i++ {
+		if bs[i] < '0' || bs[i] > '9' {
+			valid = false
+			break
+		}
+		ref = ref*10 + int64(bs[i]-'0')
+	}
+	if neg {
+		ref = -ref
+	}
+	if signed {
+		v, err := strconv.ParseInt(s, 10, 16)
+		inRange := ref >= -32768 && ref <= 32767
+		verifAssert("self.parse.int.ok_iff", (err == nil) == (valid && inRange))
+		if err == nil {
+			verifAssert("self.parse.int.value", v == ref)
+		} else if valid {
+			verifAssert("self.parse.int.clamped", (ref > 0 && v == 32767) || (ref < 0 && v == -32768))
+		}
+	} else {
+		v, err := strconv.ParseUint(s, 10, 16)
+		verifAssert("self.parse.uint.ok_iff", (err == nil) == (valid && ref <= 65535))
+		if err == nil {
+			verifAssert("self.parse.uint.value", int64(v) == ref)
+		} else if valid {
+			verifAssert("self.parse.uint.clamped", v == 65535)
+		}
+	}
+	verifCover("self.parse.end")
 }
